@@ -132,6 +132,14 @@ func runScript(contractState *statedb.ContractState, payload, contractAddress []
 	case "vm":
 		return "", nil, "", fee, &stubVmErr{"scripted vm error"}
 	}
+	if sc.Err == "vmlate" {
+		// A Lua runtime error raised AFTER the contract wrote variables at top level (`system.setItem(..); error()`):
+		// luaSetVariable has already done contractState.SetData; vm.go Call's error branch only rolls the SQL
+		// savepoints back (rollbackToSavepoint) — recovery points, which revert the contract state, exist only for
+		// nested calls / pcall / deploy — and balance changes of third parties are never put (commitCalledContract
+		// is skipped). So: the writes are applied to the handle, nothing else happens, the error is a plain vm error.
+		sc.Xfers = nil
+	}
 	for _, x := range sc.Xfers {
 		id, err := hex.DecodeString(x.To)
 		if err != nil {
@@ -172,6 +180,8 @@ func runScript(contractState *statedb.ContractState, payload, contractAddress []
 		}
 	}
 	switch sc.Err {
+	case "vmlate":
+		return "", nil, "", fee, &stubVmErr{"scripted vm error after writes"}
 	case "system":
 		return "", nil, "", fee, newVmSystemError(errors.New("scripted system error"))
 	case "timeout":
